@@ -231,6 +231,26 @@ func soCase(w *gal.Writer, name, op, cver, pver, class string) {
 		Class: class, Desc: map[string]any{"constraint": name + op + cver, "provide": name + "=" + pver, "satisfied": obs}})
 }
 
+// a candidate list through the REAL filterPackages with dq map, pins and installed package (apk.VerifFilterList)
+func fltlCase(w *gal.Writer, name, op, cver, allow, prefer string, installed *apk.VerifFilterCandidate, cands []apk.VerifFilterCandidate, clean bool, class string) {
+	passed, urls, instURL := apk.VerifFilterList(cands, name+op+cver, allow, prefer, installed)
+	items := make([]string, len(cands))
+	descs := make([]map[string]any, len(cands))
+	for i, c := range cands {
+		items[i] = fmt.Sprintf("{| fc_id := %s; fc_ver := %s; fc_provs := %s; fc_url := %s; fc_pinned := %s; fc_dq := %s |}",
+			gal.N(uint64(i)), gal.Str(c.Version), gal.StrList(c.Provides), gal.Str(urls[i]), gal.Str(c.Pinned), gal.Bool(c.Disqualified))
+		descs[i] = map[string]any{"version": c.Version, "provides": c.Provides, "url": urls[i], "pinned": c.Pinned, "disqualified": c.Disqualified}
+	}
+	obs := make([]string, len(passed))
+	for i, p := range passed {
+		obs[i] = gal.N(uint64(p))
+	}
+	w.Add(gal.Case{Term: fmt.Sprintf("{| fl_name := %s; fl_op := %s; fl_cver := %s; fl_allow := %s; fl_prefer := %s; fl_installed := %s; fl_cands := %s; fl_obs := %s; fl_clean := %s |}",
+		gal.Str(name), gal.Str(op), gal.Str(cver), gal.Str(allow), gal.Str(prefer), gal.Opt(installed != nil, gal.Str(instURL)), gal.List(items), gal.List(obs), gal.Bool(clean)),
+		Class: class, Trivial: len(cands) == 0,
+		Desc: map[string]any{"constraint": name + op + cver, "allow_pin": allow, "prefer_pin": prefer, "installed_url": instURL, "candidates": descs, "passed": passed}})
+}
+
 func resCase(w *gal.Writer, s, class string) {
 	n, v, p, d := resolveObs(s)
 	w.Add(gal.Case{Term: fmt.Sprintf("{| r_str := %s; r_name := %s; r_ver := %s; r_dep := %s; r_pin := %s |}", gal.Str(s), gal.Str(n), gal.Str(v), gal.Z(int64(d)), gal.Str(p)),
@@ -248,7 +268,7 @@ func main() {
 	out := flag.String("out", "", "cases directory")
 	seed := flag.Uint64("seed", 1, "seed")
 	tier := flag.String("tier", "quick", "tier")
-	stage := flag.String("stage", "parse", "parse|compare|constraint|resolve|filter|soname")
+	stage := flag.String("stage", "parse", "parse|compare|constraint|resolve|filter|soname|pins")
 	_ = flag.String("replay", "", "unused")
 	flag.Parse()
 	scale := 1
@@ -429,6 +449,99 @@ func main() {
 		}
 		for i := 0; i < 100*scale; i++ {
 			soCase(w, gal.Pick(r, sonames), gal.Pick(r, ops), mutate(r, genParts(r, true).String()), genParts(r, true).String(), "malformed")
+		}
+	case "pins":
+		w = &gal.Writer{Dir: *out, Require: "From Apko Require Import Corr.C03.", Type: "fltl_case", Check: "check_filter_list", Shard: 150}
+		ops := []string{"=", ">", "<", ">=", "<=", "~"}
+		repos := []string{"https://r1.example/os/x86_64", "https://r2.example/os/x86_64", "/local/packages/x86_64"}
+		pinNames := []string{"", "", "edge", "local", "testing"}
+		cand := func(ver, repo, pinned string, dq bool, provs ...string) apk.VerifFilterCandidate {
+			return apk.VerifFilterCandidate{Name: "a", Version: ver, Provides: provs, RepoURI: repo, Pinned: pinned, Disqualified: dq}
+		}
+		// corners: nothing pinned or disqualified = the version filter; a pinned candidate needs its pin allowed or preferred,
+		// or to be the installed package itself (same URL); dq always removes; an unparsable required version returns nothing
+		// even when pins or dq would have let candidates through; a bare name keeps every eligible candidate
+		base := []apk.VerifFilterCandidate{cand("1.0", repos[0], "", false), cand("2.0", repos[0], "edge", false), cand("2.0", repos[1], "local", false),
+			cand("3.0", repos[1], "", true), cand("0.5", repos[2], "edge", false, "a=2.5"), cand("2.0-r0", repos[0], "", false)}
+		inst := cand("2.0", repos[0], "", false)
+		instOther := cand("2.0", repos[2], "", false)
+		for _, op := range append([]string{""}, ops...) {
+			cv := "2.0"
+			if op == "" {
+				cv = ""
+			}
+			fltlCase(w, "a", op, cv, "", "", nil, base, true, "corpus")
+			fltlCase(w, "a", op, cv, "edge", "", nil, base, true, "corpus")
+			fltlCase(w, "a", op, cv, "", "local", nil, base, true, "corpus")
+			fltlCase(w, "a", op, cv, "edge", "local", nil, base, true, "corpus")
+			fltlCase(w, "a", op, cv, "", "", &inst, base, true, "corpus")
+			fltlCase(w, "a", op, cv, "", "", &instOther, base, true, "corpus")
+			fltlCase(w, "a", op, cv, "testing", "", &inst, base, true, "corpus")
+		}
+		fltlCase(w, "a", "=", "notaversion", "edge", "local", nil, base, false, "corpus")
+		fltlCase(w, "a", "=", "notaversion", "", "", nil, []apk.VerifFilterCandidate{cand("1", repos[0], "edge", false), cand("1", repos[0], "", true)}, false, "corpus")
+		fltlCase(w, "a", "=", "1", "", "", nil, nil, true, "corpus")
+		fltlCase(w, "a", ">", "1", "", "", nil, []apk.VerifFilterCandidate{cand("bad", repos[0], "", false, "a=2"), cand("2", repos[0], "", false)}, false, "corpus")
+		for i := 0; i < 300*scale; i++ {
+			small := r.Chance(3, 4)
+			cv := genParts(r, small)
+			var cands []apk.VerifFilterCandidate
+			for k, n := 0, r.Intn(6); k < n; k++ {
+				v := neighbour(r, cv, small)
+				if r.Chance(1, 4) {
+					v = cv
+				}
+				var provs []string
+				if r.Chance(1, 4) {
+					provs = append(provs, "a="+neighbour(r, cv, small).String())
+				}
+				cands = append(cands, cand(v.String(), gal.Pick(r, repos), gal.Pick(r, pinNames), r.Chance(1, 5), provs...))
+			}
+			var installed *apk.VerifFilterCandidate
+			if len(cands) > 0 && r.Chance(1, 2) {
+				c := cands[r.Intn(len(cands))]
+				if r.Chance(1, 4) {
+					c.RepoURI = gal.Pick(r, repos)
+				}
+				c.Pinned, c.Disqualified = "", false
+				installed = &c
+			}
+			op, cvs := gal.Pick(r, ops), cv.String()
+			if r.Chance(1, 8) {
+				op, cvs = "", ""
+			}
+			clean := true
+			for _, c := range cands {
+				if _, err := apk.ParseVersion(c.Version); err != nil {
+					clean = false
+				}
+			}
+			if _, err := apk.ParseVersion(cvs); err != nil && op != "" {
+				clean = false
+			}
+			fltlCase(w, "a", op, cvs, gal.Pick(r, pinNames), gal.Pick(r, pinNames), installed, cands, clean, "structured")
+		}
+		for i := 0; i < 40*scale; i++ {
+			cv := genParts(r, true).String()
+			if r.Bool() {
+				cv = mutate(r, cv)
+			}
+			var cands []apk.VerifFilterCandidate
+			for k, n := 0, 1+r.Intn(4); k < n; k++ {
+				v := genParts(r, true).String()
+				if r.Chance(1, 3) {
+					v = mutate(r, v)
+				}
+				cands = append(cands, cand(v, gal.Pick(r, repos), gal.Pick(r, pinNames), r.Chance(1, 5)))
+			}
+			bad := strings.ContainsAny(cv, "\x00")
+			for _, c := range cands {
+				bad = bad || strings.ContainsAny(c.Version, "\x00")
+			}
+			if bad {
+				continue
+			}
+			fltlCase(w, "a", gal.Pick(r, ops), cv, gal.Pick(r, pinNames), gal.Pick(r, pinNames), nil, cands, false, "malformed")
 		}
 	case "resolve":
 		names := []string{"a", "foo-bar", "so:libc.so.6", "cmd:x", "pc:y+z", "py3.11-foo", "a.b_c"}
